@@ -212,9 +212,9 @@ def build_unit(sigs_chunk, structs_used):
         fresh2 = Fresh(f"v{i}x")
         cb_body = " ".join(t.show(n, fresh2) for n, t in zip(pnames, sg.params))
         if sg.ret is not None:
-            cb_body += f" {sg.ret.lit(retv2)}"
+            cb_body += f" return {sg.ret.lit(retv2)};"
         capy.append(f"cb{i} :: ({', '.join(f'{n}: {t.spell()}' for n, t in zip(pnames, sg.params))}){rs} {{ {cb_body} }}")
-        fty = f"({', '.join(f'{n}: {t.spell()}' for n, t in zip(pnames, sg.params))}){rs}"
+        fty = f"({', '.join(f'{n}: {t.spell()}' for n, t in zip(pnames, sg.params))}){rs or ' -> void'}"
         capy.append(f"drv{i} :: (f: {fty}) extern;")
         cargs = ", ".join(clit(t, a) for t, a in zip(sg.params, args))
         fptr = f"{cret} (*f)({', '.join(ctype(t) for t in sg.params) or 'void'})"
